@@ -233,7 +233,7 @@ fn coll_json(id: u64, c: &Coll) -> Option<Value> {
         Coll::Gone => None,
     }
 }
-const VALS: &[&str] = &["u", "v", "", "a b", "é😀", "handle:zzzzzzzzzzzzzzzzzzzz", "0", "false", "k", "#x", "\"q\""];
+const VALS: &[&str] = &["u", "v", "", "a b", "é😀", "handle:zzzzzzzzzzzzzzzzzzzz", "0", "false", "k", "#x", "\"q\"", " ", "a\nb", "=", "say \"hi\"", "true", ",", "\t"];
 pub fn record(args: &[String]) {
     let seed: u64 = args[0].parse().unwrap();
     let nhist: usize = args[1].parse().unwrap();
